@@ -98,12 +98,21 @@ CheckFixOnly(r) ==
   /\ Chk("C20_OnlyListedLines", 0, r.kind # "lines" \/ Range(r.fixedLines) \subseteq Range(r.listedLines))
   /\ Chk("C20_ListedLinesChange", 0, r.kind # "lines" \/ ~r.lineLocal \/ Range(r.changedLines) = (Range(r.listedLines) \cap Range(r.reportedLines)))
 
+\* ---------------------------------------------------------------------------------------------------- damaged inputs (C19)
+\* a damaged copy of an accepted file is either still accepted (and then checked / fixed without a crash) or rejected with a
+\* located one-line syntax message and a non-zero status; never an unhandled exception
+CheckRobust(r) ==
+  /\ Chk("C19_NoCrash", 0, r.outcome # "crash")
+  /\ Chk("C19_RejectionIsLocated", 0, r.outcome # "rejected" \/ r.located)
+  /\ Chk("C19_RejectionIsAnError", 0, r.outcome # "rejected" \/ r.exit)
+
 Init == /\ n \in 1..Len(Recs)
         /\ CASE R.t = "gating"  -> CheckGating(R)
              [] R.t = "equiv"   -> CheckEquiv(R)
              [] R.t = "purity"  -> CheckPurity(R)
              [] R.t = "formats" -> CheckFormats(R)
              [] R.t = "fixonly" -> CheckFixOnly(R)
+             [] R.t = "robust"  -> CheckRobust(R)
              [] OTHER -> Chk("B_UnknownRecord", 0, FALSE)
 Next == FALSE /\ n' = n
 Spec == Init /\ [][Next]_n
